@@ -20,7 +20,8 @@ CLAIMS = {
             "invariant INV: the send step hands the network exactly the probe it stores as Awaited (or marks exactly that "
             "probe Failed), the receive step completes exactly the awaited probe the response names with the response's "
             "responder / receive time / kind / code and the probe's own ttl / send time, and publish exposes exactly the "
-            "round's slots; the identity round-trip and the quotation parsers (C02 groups) run under this property too. "
+            "round's slots; the identity round-trip (both tiers) and the quotation parsers (thorough tier) of C02 run under this "
+            "property too. "
             "Whole-run quantification follows by induction over steps (not by a solver query).",
             "Slot effects are decided at representative concrete window positions (round_sequence, size) with every other "
             "field symbolic; scalar behaviour for all positions. Not covered: per-hop totals in a snapshot (aggregator, see "
@@ -30,7 +31,7 @@ CLAIMS = {
             "(a) for all 2^16 sequences x rounds x ports x addresses per configuration family, the identity probe_data puts "
             "into a probe is recovered from a conforming quotation and accepted, and a quotation with another destination, "
             "another fixed port, a missing Dublin marker or a foreign ICMP id is rejected; (b) dispatch puts those fields "
-            "where the contract says (the dispatch harnesses of C11 / C13 run under this property too); (c) the extract functions read them from there for every quotation of "
+            "where the contract says (the dispatch harnesses of C11 / C13: under this property in the thorough tier); (c) the extract functions read them from there for every quotation of "
             "symbolic content and length up to the bound.",
             "Quotation length bound N = 48/64 bytes (IPv4 IHL 5..15), IPv6 48..64/80; composition across the contract is by "
             "reading; the RFC 4884 extension split is C14; unprivileged kernel-built headers are outside the claim."),
